@@ -40,5 +40,10 @@ def run(ctx):
     # judged by the one it inherits
     S.r10_hooks(ctx, ids=('R03.12', 'R03.13', 'R03.14'), only_hooks={'_yatiml_recognize'})
     R3.r03_15_tag_class_direction(ctx, 'R03.15')
+    from . import round3 as R3_
+    R3_.r03_16_descent_reaches_registered_descendants(ctx)
+    R3_.r03_17_tag_selects_against_generic_members(ctx)
+    from . import round3 as R3c
+    R3c.r13_10_tag_collisions(ctx, 'R03.18')
     from . import memo_rules as M
     M.memo_sound(ctx, 'R03.M')
